@@ -77,8 +77,12 @@ func recacheAggregatorContext(ctx sdk.Context, agc *aggregator.AggregatorContext
 		return false
 	}
 	// #nosec G115
+	forceSealedAt := int64(0)
 	if int64(h.Block) >= from {
 		from = int64(h.Block) + 1
+		// the replay starts right after a validator-set change: in that block's EndBlock the live node
+		// force-sealed every open round before it prepared the rounds of the block
+		forceSealedAt = int64(h.Block)
 	}
 
 	logger.Info("recacheAggregatorContext", "from", from, "to", to, "height", ctx.BlockHeight())
@@ -108,6 +112,7 @@ func recacheAggregatorContext(ctx sdk.Context, agc *aggregator.AggregatorContext
 		p = recentParamsMap[prev]
 		agc.SetParams(p)
 		setCommonParams(p)
+		replayForceSeal(ctx, agc, forceSealedAt)
 		// nothing to replay (the validator set changed in the previous block and all rounds were sealed),
 		// but the rounds of the current block still have to be prepared like the live node did
 		agc.PrepareRoundEndBlock(uint64(to - 1))
@@ -129,6 +134,10 @@ func recacheAggregatorContext(ctx sdk.Context, agc *aggregator.AggregatorContext
 				}
 			}
 
+			if forceSealedAt > 0 {
+				replayForceSeal(ctx, agc, forceSealedAt)
+				forceSealedAt = 0
+			}
 			agc.PrepareRoundEndBlock(uint64(from - 1))
 
 			if msgs := recentMsgs[from]; msgs != nil {
@@ -173,6 +182,19 @@ func recacheAggregatorContext(ctx sdk.Context, agc *aggregator.AggregatorContext
 	c.AddCache(cache.ItemP(*p))
 
 	return true
+}
+
+// replayForceSeal reproduces what the live node did to the rounds in the EndBlock of a validator-set change
+// at the given height, before it prepared that block's rounds: every round that was open then is closed.
+// Without it a restarted node re-creates a round whose window is still running as open, accepts
+// submissions the other nodes reject, and closes the round a second time.
+func replayForceSeal(ctx sdk.Context, agc *aggregator.AggregatorContext, height int64) {
+	if height < 1 {
+		return
+	}
+	// #nosec G115
+	agc.PrepareRoundEndBlock(uint64(height - 1))
+	agc.SealRound(ctx.WithBlockHeight(height), true)
 }
 
 func initAggregatorContext(ctx sdk.Context, agc *aggregator.AggregatorContext, k common.KeeperOracle, c *cache.Cache) {
